@@ -173,7 +173,7 @@ class Check:
                 self.trusted.append(r)
 
     # ------------------------------------------------------------------
-    def finish(self) -> int:
+    def _known_table(self) -> list:
         all_known = _load_known()
         known = [k for k in all_known if k["property"] == self.pid]
         # an inherited rule `C03.R2` also answers to the findings recorded for C03-R2 itself
@@ -183,21 +183,23 @@ class Check:
                 kk["rule"] = f"{k['property']}.{k['rule']}"
                 kk["_inherited"] = True
                 known.append(kk)
+        return known
+
+    def known_match(self, v: dict, known: Optional[list] = None):
+        for k in (known if known is not None else self._known_table()):
+            if k.get("status", "known") != "known":
+                continue  # fixed entries suppress nothing
+            if k["rule"] == v["rule"] and k["construct"] == v["construct"] and k["witness"] == v["witness"]:
+                return k
+        return None
+
+    def finish(self) -> int:
+        known = self._known_table()
         all_v = [v for r in self.rules for v in r.violations]
         new_v = []
         known_hit = []
         for v in all_v:
-            match = None
-            for k in known:
-                if k.get("status", "known") != "known":
-                    continue  # fixed entries suppress nothing
-                if (
-                    k["rule"] == v["rule"]
-                    and k["construct"] == v["construct"]
-                    and k["witness"] == v["witness"]
-                ):
-                    match = k
-                    break
+            match = self.known_match(v, known)
             if match:
                 known_hit.append((v, match))
             else:
